@@ -103,6 +103,14 @@ func gen(r *Rng, tier string, emit Emit) {
 		}
 		emit("C", "guidparse", H(txt))
 	}
+	// files of 16 MiB and more: built in the worker
+	nbig := 3
+	if tier == "thorough" {
+		nbig = 24
+	}
+	for it := 0; it < nbig; it++ {
+		emit("P", "p_c03_big", N(r.Fork(uint64(7000000+it)).U64()))
+	}
 	maxLen, k := 2, 0
 	if tier == "thorough" {
 		maxLen = 3
